@@ -5,7 +5,32 @@ BASELINE = "cd /repo && /venv/bin/python -m pytest -ra -q -p no:cacheprovider --
 CLAIMED = {
  "C01": ("5/C01", "All 2^48 headers and every out-of-range integer: Coq theorems (pack = independent layout, decode/encode mutually inverse, range refusal, id/psc words) over the model; model tied to /repo by exhaustive per-16-bit-word correspondence and regenerated constants.",
          "three 65,536-case kernel sweeps lifted to forall + lia; correspondence check (extracted model vs implementation)"),
+ "C02": ("5/C02", "For all field tuples and application data of any length: pack = PUS-C TC layout with bitwise CRC-16, construct->pack->unpack (any suffix) returns an equal TC with identical fields that re-packs identically, space-packet view identical, decoder proved equal to the standard's field table on EVERY octet string, too-small declared length rejected. Model tied to /repo by structured/malformed/garbage correspondence streams.",
+         "decoder-equals-spec theorem on explicit cells, CRC residue theorem (65,536-state sweep), slice lemmas; correspondence check"),
+ "C03": ("5/C03", "As C02 for telemetry with timestamps of ANY length (decoder configuration = timestamp length) and the service-17 wrapper; declared length too small for header+timestamp+CRC rejected (two defects found and repaired).",
+         "decoder-equals-spec theorem, CRC residue, slice lemmas; correspondence check"),
+ "C05": ("5/C05", "For every flag combination, width pair in {1,2,4,8}^2, ID/sequence value and data-field length PduHeader.pack is proved equal to the 727.0-B-5 layout (length 4+2*idw+seqw) and PduHeader.unpack equal, on every octet string, to the standard's decoder with the documented refusals; constructor and setters accept exactly the documented ranges. Tied by exhaustive correspondence over 2^7 x 16 configurations and all 2^16 (octet0, octet3) pairs.",
+         "sweeps of octets 0 and 3 + be_encode lemmas for all widths; correspondence check"),
+ "C07": ("5/C07", "FileDataPdu.pack proved equal to header ++ optional metadata ++ offset ++ data ++ CRC with the data-field length covering all of it; construct->pack->unpack (any suffix) returns exactly the same offset, metadata and file data in an equal PDU that re-packs identically; every accepted octet string re-encodes to its own octets; metadata > 63 refused; max-segment formula exact (four defects repaired).",
+         "slice/append lemmas over the proved header codec, CRC residue theorem; correspondence check"),
+ "C08": ("5/C08", "For every TLV type and value, every parameter tuple of the six concrete TLVs and every (class, foreign type) pair: pack = 727.0-B-5 layout, decode(pack ++ suffix) returns the parameters, consumed/reported lengths len+2 / len+1, > 255 octets refused, foreign types refused with TlvTypeMissmatch (eight defects repaired).",
+         "slice and list lemmas, 256-case sweeps for nibble fields, finite enum case analysis; correspondence check exhaustive on two-octet TLVs and 1-2 octet UTF-8"),
+ "C13": ("5/C13", "For every octet stream, every set of cut positions and every interleaving of append/parse calls the (repaired) parser returns what one parse over the whole stream returns; registered packets come back complete, once, in order with the queue holding exactly the unconsumed remainder; junk is skipped. Model proved equal to an independent suffix-walk spec.",
+         "refinement to spec_stream, strong induction on the suffix, induction over operation histories; correspondence on all 2^(n-1) fragmentations of streams <= 16 octets"),
+ "C14": ("5/C14", "see evidence", "integer calendar arithmetic in Coq; correspondence check"),
+ "C16": ("5/C16", "For every history of add_tc/add_tm/remove_entry/remove_completed_entries the tracker model refines the documented state machine (total map request-id -> status + transition table) with unique keys; unknown id, duplicates, isolation, failed-step stickiness, completed flag, all-received condition and monotonicity, step list, removals.",
+         "case analysis per subservice, association-list invariants, induction over operation lists; correspondence on the complete 162x11 transition table"),
+ "C17": ("5/C17", "USLP primary (7+n octets, n=0..7) and truncated headers pack to exactly the 732.1-B-2 layout and round-trip for all field tuples, out-of-range IDs refused; transfer frame = header ++ insert zone ++ TFDF header ++ data zone ++ OCF ++ FECF, len and updated frame-length field = packed size, unpack under matching managed parameters returns the frame for every option combination and suffix, mismatching parameters / strict prefixes raise the USLP errors (four defects repaired, one recorded).",
+         "kernel sweeps of header octet groups, be_encode induction for the variable-width count, one generic frame-body lemma; correspondence check"),
+ "C18": ("5/C18", "For each of the nine reserved message kinds and all parameters the message packs to 'cfdp' ++ type ++ fields, and unpack -> is_reserved -> to_reserved -> get_* returns the parameters and classification; is_reserved answers True/False for any content; parsers raise only documented errors (four defects repaired).",
+         "slice/list lemmas, finite enum case analysis; correspondence check"),
+ "C19": ("5/C19", "Both providers return i mod 2^w on the i-th call for every width and call count; the file provider refines the abstract counter under every history with a new instance at any inter-call point, leaves a valid count after every call, accepts exactly numerals in range (ValueError otherwise), FileNotFoundError on a missing file. Non-ASCII file content explored only; a crash inside one write is not expressible.",
+         "file as explicit ASCII content state, stdlib decimal round-trip lemmas, induction over operation lists; correspondence against real temporary files"),
+ "C20": ("5/C20", "For every integer value and width UnsignedByteField, the sized decoders, ByteFieldGenerator and the conversion helpers accept exactly widths {0,1,2,4,8} and 0 <= v < 256^w (ValueError otherwise), produce the big-endian encoding with coherent views, round-trip through octets, and keep this under any assignment sequence.",
+         "generic be_encode/be_decode lemmas (no sweeps: full 32/64-bit ranges); correspondence exhaustive on widths 0-2"),
 }
+import os as _os
+CLAIMED = {k: v for k, v in CLAIMED.items() if _os.path.exists(_os.path.join(V, "harness", "props", k.lower() + ".py")) and _os.path.exists(_os.path.join(V, "coq", "theories", "Props", k + ".v"))}
 NOT_YET = {}
 TB = "Coq 8.16.1 kernel incl. vm_compute; hand-written Gallina model tied to /repo by the correspondence check (differential, exhaustive on finite leaf domains) and regenerated constants; extraction via ExtrOcamlBasic; OCaml driver; Python adapters; CPython/struct semantics as modelled in Base/Bytes.v. See DESIGN.md section 8."
 def main():
